@@ -139,3 +139,24 @@ WINDOWS = {
     ],
 }
 UNITS["windows"] = WINDOWS
+
+# ---------------------------------------------------------------------------------------------------------------- dataset loops (C20)
+_CH = "reservoirpy/datasets/_chaos.py"
+MAPS = {
+    "module": "GenMaps", "out": "Gen_maps.v",
+    "fields": {},
+    "identity_calls": ["check_vector"],
+    "functions": [
+        {"name": "henon_map", "file": _CH, "indexing": True, "allow_kwargs": True,
+         "params": {"n_timesteps": N, "a": S, "b": S, "x0": V("flat")}},
+        {"name": "logistic_map", "file": _CH, "indexing": True, "allow_kwargs": True, "raises": True,
+         "params": {"n_timesteps": N, "r": S, "x0": S}},
+        {"name": "narma", "file": _CH, "indexing": True,
+         "params": {"n_timesteps": N, "order": N, "a1": S, "a2": S, "b": S, "c": S, "x0": V("col"), "seed": "IGNORE", "u": V("col")},
+         # seed plumbing (only used to draw u when none is given: C14) and the normalisation of x0 to an (init_steps, 1) column
+         "skip": ["if seed is None:\n    seed = get_seed()", "rs = rand_generator(seed)", "x0 = np.asarray(x0)",
+                  "if x0.ndim == 1:\n    x0 = x0.reshape(-1, 1)", "x0 = check_vector(np.atleast_2d(x0))",
+                  "if u is None:\n    u = rs.uniform(0, 0.5, size=(n_timesteps + order, 1))"]},
+    ],
+}
+UNITS["maps"] = MAPS
